@@ -9,6 +9,7 @@ CONSTANTS PlumbLen,     \* longest text of the plumbing scenarios (no fragmentat
           FragLen2,     \* ... of the other fragmenting scenarios
           FragLenSJ,    \* ... of the shift_jis fragmenting scenarios
           FragAll,      \* TRUE: more (mark, label) combinations among the "other" fragmenting scenarios
+          FragAlpha,    \* "frag" or "full": text alphabet of the UTF-16 / UTF-8 fragmenting scenarios
           WithPlumb, WithFrag   \* which of the two scenario families this run generates
 
 Tables == JsonDeserialize(IOEnv.C17_TABLES)
@@ -50,8 +51,8 @@ FragMain == {<<"none", "le", "utf-16le">>}
 FragOther == {<<"be", "be", "auto">>, <<"u8", "u8", "auto">>}
 FragMore == {<<"none", "be", "utf-16be">>, <<"le", "le", "utf-16be">>, <<"le", "le", "auto">>, <<"u8", "u8", "utf-8">>}
 FragSeeds ==
-  {s \in {Seed(c[1], c[2], c[3], o, TRUE, "frag", FragLen) : c \in FragMain, o \in BOOLEAN}
-         \cup {Seed(c[1], c[2], c[3], o, TRUE, "frag", FragLen2)
+  {s \in {Seed(c[1], c[2], c[3], o, TRUE, FragAlpha, FragLen) : c \in FragMain, o \in BOOLEAN}
+         \cup {Seed(c[1], c[2], c[3], o, TRUE, FragAlpha, FragLen2)
                   : c \in FragOther \cup (IF FragAll THEN FragMore ELSE {}), o \in BOOLEAN}
      : Sensible(s)}
   \cup {Seed("none", "sj", "shift_jis", o, TRUE, "full", FragLenSJ) : o \in BOOLEAN}
